@@ -33,7 +33,10 @@ def run(d, allprops):
             props=[q for q in PROPS if q==meta['property'] or PROPMODS[q]&touched]
         for prop in props:
             e=dict(ENV, HIVECHECK_REPO=repo, HIVECHECK_VERIF=ver, HIVECHECK_WORK=os.path.join(t,'work-'+prop))
-            q=subprocess.run(['/verif/.bin/hivecheck','-property',prop,'-tier','quick'],env=e,capture_output=True,text=True)
+            try:
+                q=subprocess.run(['/verif/.bin/hivecheck','-property',prop,'-tier','quick'],env=e,capture_output=True,text=True,timeout=600)
+            except subprocess.TimeoutExpired:
+                res.append((prop,'ERROR',['checker did not finish within 600 s (hang)'])); continue
             failed=[l.strip() for l in (q.stdout+q.stderr).splitlines() if l.strip().startswith('FAILED')]
             if q.returncode not in (0,1) or (q.returncode==1 and not failed):
                 res.append((prop,'ERROR',[(q.stdout+q.stderr)[-500:]]))
